@@ -687,3 +687,146 @@ def c11_r12(ctx):
                        loc=ctx.nodeloc(f, x))
     if n == 0:
         raise AnalysisError("no private alignment helper of matching.binary reads a sub-matcher id")
+
+
+_MOVES = ("next", "skip_to", "skip_to_quality")
+
+
+@rule("C11", "R13", "K4", "reset() rewinds every sub-matcher the cursor moves advance",
+      min_instances=5,
+      clause="A composite matcher's next()/skip_to()/skip_to_quality() (and the private helpers they call on self) advance its "
+             "sub-matchers; reset() promises the state of a freshly built matcher, so it must call reset() on each of them -- "
+             "`self.x.reset()` for a sub-matcher held in an attribute, a loop `for m in self.xs: m.reset()` for a list.  A "
+             "sub-matcher left where it was (the prohibited side of AndNot: _find_first() only ever moves it forward) makes every "
+             "document before its stale position look unexcluded.")
+def c11_r13(ctx):
+    prog = ctx.prog
+    base = prog.cls("matching.mcore.Matcher")
+    n = 0
+
+    def base_attr(e, al):
+        e = norm.substitute(e, al) if al else e
+        while isinstance(e, ast.Subscript):
+            e = e.value
+        t = norm.canon(e)
+        return t[5:] if t.startswith("self.") and t.count(".") == 1 else None
+
+    def children(cls, names, want, depth=0, seen=None):
+        seen = seen if seen is not None else set()
+        out = set()
+        for nm in names:
+            f = prog.lookup(cls, nm)
+            if f is None or f.qualname in seen:
+                continue
+            seen.add(f.qualname)
+            al = norm.aliases(f.node)
+            loopmap = {}
+            for lp in ast.walk(f.node):
+                if isinstance(lp, (ast.For, ast.comprehension)) and isinstance(lp.target, ast.Name):
+                    b = base_attr(lp.iter, al)
+                    if b:
+                        loopmap[lp.target.id] = b
+            for c in norm.calls_in(f.node):
+                if not isinstance(c.func, ast.Attribute):
+                    continue
+                if c.func.attr in want:
+                    r = c.func.value
+                    if isinstance(r, ast.Name) and r.id in loopmap:
+                        out.add(loopmap[r.id])
+                    else:
+                        r2 = norm.inline_defs(r, f.node) if isinstance(r, ast.Name) else r
+                        b = base_attr(r2, al)
+                        if b:
+                            out.add(b)
+                elif depth < 3 and norm.canon(c.func.value) == "self" and (c.func.attr.startswith("_") or c.func.attr in want):
+                    out |= children(cls, [c.func.attr], want, depth + 1, seen)
+                elif depth < 3 and isinstance(c.func.value, ast.Call) and norm.call_name(c.func.value) == "super" and c.func.attr in names:
+                    for b_ in prog.mro(cls)[1:]:
+                        if c.func.attr in b_.methods:
+                            out |= children(b_, [c.func.attr], want, depth + 1, seen)
+                            break
+        return out
+
+    for cls in prog.subclasses(base, strict=True):
+        if not any(m in cls.methods for m in _MOVES + ("reset",)):
+            continue
+        rs = prog.lookup(cls, "reset")
+        if rs is None or is_abstract_body(rs):
+            continue
+        moved = children(cls, list(_MOVES), _MOVES)
+        if not moved:
+            continue
+        n += 1
+        ctx.saw(rs)
+        rewound = children(cls, ["reset"], ("reset",))
+        # a sub-matcher that the constructor also hands to another sub-matcher it builds (RequireMatcher: self.a = a;
+        # WrappingMatcher.__init__(self, IntersectionMatcher(a, b))) is rewound by that one's reset()
+        init = prog.lookup(cls, "__init__")
+        if init is not None and rewound:
+            held = {}
+            for st in ast.walk(init.node):
+                if isinstance(st, ast.Assign) and len(st.targets) == 1 and isinstance(st.value, ast.Name) and st.value.id in init.params:
+                    b = base_attr(st.targets[0], None)
+                    if b:
+                        held[st.value.id] = b
+            for c in norm.calls_in(init.node):
+                for a_ in c.args:
+                    if isinstance(a_, ast.Call) and isinstance(a_.func, (ast.Name, ast.Attribute)) and norm.call_name(a_)[:1].isupper():
+                        for aa in a_.args:
+                            if isinstance(aa, ast.Name) and aa.id in held:
+                                rewound = rewound | {held[aa.id]}
+        missing = sorted(moved - rewound)
+        ctx.ob(cls, not missing, "reset() calls reset() on every sub-matcher that next()/skip_to()/skip_to_quality() advance",
+               detail=("advanced: %s; rewound by reset(): %s; left where they were: %s" % (sorted(moved), sorted(rewound), missing)) if missing else "",
+               loc=rs.loc)
+    if n < 5:
+        raise AnalysisError("only %d composite matchers with sub-matcher moves found" % n)
+
+
+@rule("C11", "R14", "K1", "the segment cursor of a MultiMatcher only rests on an active sub-matcher",
+      min_instances=2, also=("C01", "C06"),
+      clause="MultiMatcher.is_active() is `self.current < len(self.matchers)` and id()/score()/... read matchers[self.current] "
+             "without a test, so between calls self.current must be the index of an ACTIVE sub-matcher or len(matchers).  Only "
+             "_next_matcher() establishes that (it steps over sub-matchers that are exhausted or were empty from the start: a "
+             "segment whose postings for the term are all deleted).  Every other write of self.current is therefore followed, on "
+             "every path to the method's exit, by self._next_matcher().")
+def c11_r14(ctx):
+    prog = ctx.prog
+    cls = prog.cls("matching.wrappers.MultiMatcher")
+    nm = cls.methods.get("_next_matcher")
+    if nm is None:
+        raise AnalysisError("MultiMatcher._next_matcher not found")
+    n = 0
+    for name, f in sorted(cls.methods.items()):
+        if f is nm:
+            continue
+        g = cfgmod.cfg_of(f, exc_edges=False)
+
+        def wr(nd):
+            a = nd.ast
+            if nd.kind != "stmt" or not isinstance(a, (ast.Assign, ast.AugAssign)):
+                return False
+            tg = a.targets if isinstance(a, ast.Assign) else [a.target]
+            return any(norm.canon(y) == "self.current" for x in tg for y in (x.elts if isinstance(x, ast.Tuple) else [x]))
+
+        if not any(wr(nd) for nd in g.nodes):
+            continue
+        n += 1
+        ctx.saw(f)
+
+        def transfer(nd, st):
+            if wr(nd):
+                return frozenset([nd.id])
+            for frag in cfgmod.node_exprs(nd):
+                for c in norm.calls_in(frag):
+                    if norm.canon(c.func) == "self._next_matcher":
+                        return frozenset()
+            return st
+        sin, _ = cfgmod.forward(g, frozenset(), transfer, meet=lambda a, b: a | b, include_exc=False)
+        dirty = sin[g.exit.id] or frozenset()
+        lines = sorted(getattr(g.nodes[i].ast, "lineno", 0) for i in dirty)
+        ctx.ob(f, not dirty, "every write of self.current is followed by self._next_matcher() before the method returns",
+               detail="self.current written at line %s reaches the exit without _next_matcher(): the cursor may rest on an exhausted or "
+                      "empty sub-matcher, is_active() stays True and id() raises" % lines if dirty else "", loc=f.loc)
+    if n < 2:
+        raise AnalysisError("MultiMatcher: fewer than two methods write self.current outside _next_matcher")
